@@ -126,3 +126,29 @@ def partial_stack_views(chk: Check, rule: str, proj: Project, funcs: List[Tuple[
             chk.violated(rule, key, m.loc(bad[0]), f"`{short(enclosing_stmt(bad[0]))}` reads a slice / single layer of the context stack while looking for provided keys: keys stored in other layers (e.g. layer 0 of an isolated copy) are not seen")
         else:
             chk.holds(rule, key, m.loc(f), "looks at the whole context (no `.dicts[...]` view)")
+
+
+def deferred_live_context(chk: Check, rule: str, proj: Project) -> None:
+    """Code that runs in the deferred phase (on_render_before / on_render_after hooks defined in the package, the
+    renderer and on_component_rendered closures) must not hand the LIVE input context (`*.input.context`) to a render:
+    by then that Context has left the scopes ({% provide %}, {% with %}, {% for %}) that surrounded the tag."""
+    n = 0
+    for m, q, f in proj.all_funcs():
+        last = q.split(".")[-1]
+        if last not in ("on_render_before", "on_render_after", "renderer", "on_component_rendered"):
+            continue
+        if m.name.endswith("component") and last in ("on_render_before", "on_render_after") and q.startswith("Component."):
+            continue  # the empty base hooks
+        n += 1
+        bad = None
+        for c in calls(f):
+            if last_attr(c.func) in ("render", "_render", "render_to_response"):
+                for a in list(c.args) + [k.value for k in c.keywords]:
+                    if norm(a).endswith(".input.context"):
+                        bad = (c, a)
+        key = f"{m.name.replace('django_components.', '')}:{q}:no-live-context-in-deferred-render"
+        if bad:
+            chk.violated(rule, key, m.loc(bad[0]), f"`{short(bad[1])}` (the live Context given to the render) is passed to `{short(bad[0].func)}(...)` from {last}, which runs in the deferred phase: the scopes that surrounded the tag ({{% provide %}}, {{% with %}}, {{% for %}}) are gone by then, so the inner component loses provided data and surrounding variables")
+        else:
+            chk.holds(rule, key, m.loc(f), "no live input context is handed to a render from deferred code")
+    chk.floor(rule + "-deferred", n, 3)
